@@ -24,14 +24,17 @@ POOL = {
     "date": datetime.date(2020, 1, 2), "datetime": datetime.datetime(2020, 1, 2, 3, 4, 5), "timedelta": datetime.timedelta(days=1, seconds=5),
     "bytes": b"xy", "tuple": frozenset({1}), "np.bool": np.bool_(True), "np.int": np.int64(3), "np.float": np.float64(2.5),
     "np.nan": np.float64("nan"), "np.dt": np.datetime64("2020-01-02"), "np.str": np.str_("z"),
+    # extreme but non-missing floats: they are values like any other for is_na / drop_na / replace_na / equal
+    "inf": float("inf"), "-inf": float("-inf"), "-0.0": -0.0, "huge": 1.7976931348623157e308,
 }
 KIND = {"None": "none", "nan": "nan", "True": "bool", "False": "bool", "1": "int", "big": "int", "1.5": "float", "a": "str", "empty": "str",
         "date": "date", "datetime": "datetime", "timedelta": "timedelta", "bytes": "bytes", "tuple": "obj", "np.bool": "npbool",
-        "np.int": "npint", "np.float": "npfloat", "np.nan": "npnan", "np.dt": "npdt", "np.str": "npstr"}
+        "np.int": "npint", "np.float": "npfloat", "np.nan": "npnan", "np.dt": "npdt", "np.str": "npstr",
+        "inf": "float", "-inf": "float", "-0.0": "float", "huge": "float"}
 DTYPES = [None, "bool", "int", "float", "str", "object", "datetime64[D]", "datetime64[us]", "timedelta64[s]"]
 FAMILIES = [["True", "False"], ["1", "big"], ["1.5", "1"], ["a", "empty"], ["date"], ["datetime"], ["timedelta"], ["bytes"], ["tuple", "1"],
             ["np.bool"], ["np.int"], ["np.float", "np.nan"], ["np.dt"], ["np.str"], ["True", "1"], ["1", "a"], ["date", "datetime"],
-            ["True", "1.5"], ["a", "1.5"]]
+            ["True", "1.5"], ["a", "1.5"], ["1.5", "inf", "-inf"], ["inf", "-0.0", "huge", "1"]]
 
 
 def gen_case(rng, tier):
